@@ -1,5 +1,5 @@
 """C07 — every play terminates, cleans up twice and leaves no process behind."""
-import json
+import json, re
 import os
 import signal
 import stat
@@ -59,7 +59,7 @@ def leftover(play_id):
     return res
 
 
-CLEAN = 'echo c >> ../../../../cleanup.ledger'
+CLEAN = 'echo "$(basename $PWD)" >> ../../../../cleanup.ledger'
 LONG = playgen.action_cmd("long", 20)
 
 
@@ -219,6 +219,9 @@ def run(tier, seed):
     # shutdown counts from the signal, not from the start of the play (the play is put first: it is the longest)
     add("SIGTERM after 63 s of play, action ignoring SIGHUP", e2e_play(scene_x="stub63", extra_actions="  :stub63 trap '' HUP; sleep 200"), 63 + 15, 2, sig=(63.0, signal.SIGTERM))
     faults.insert(0, faults.pop())
+    # the signal lands after the prompter's last look at the stop request and before the lines of the scene are handed
+    # to the stopper, which refuses them: the scene must end with that refusal, not wait for tasks that never started
+    add("SIGTERM between the prompter's stop check and the start of a scene's lines", e2e_play(scene_x="quick"), 10, 2, sig=(0.5, signal.SIGTERM), points="prompt.scene=sleep:1s")
     add("a completed action left a process in the background", e2e_play(scene_x="bg", extra_actions="  :bg (setsid sleep 7 >/dev/null 2>&1 &) ; true"), 8, 2, expect_fail=False, allow_left=True, body_err=False)
     add("SIGINT while the conductor is between shutdown stages", e2e_play(scene_x="quick"), 8, 2, sig=(0.45, signal.SIGINT), points="conduct.stage2=sleep:600ms")
     add("SIGTERM while the collector is still draining", e2e_play(scene_x="quick"), 8, 2, sig=(0.5, signal.SIGTERM), points="collector.loop=sleep:150ms")
@@ -259,6 +262,16 @@ def run(tier, seed):
         ncast = f["play"].text.count(" plays ")
         if f["cleanups"] is not None and cl != f["cleanups"]:
             problems.append("cleanup commands ran %d times for %d actors, the life-cycle model prescribes %d" % (cl, ncast, f["cleanups"]))
+        elif f["cleanups"] is not None and ncast:
+            # ... each in its own actor's directory, every actor the same number of times
+            try:
+                who = open(os.path.join(r["cwd"], "cleanup.ledger")).read().split()
+            except OSError:
+                who = []
+            cast = re.findall(r"^  (\S+) plays ", f["play"].text, re.M)
+            per = {a: who.count(a) for a in cast}
+            if any(v != f["cleanups"] // ncast for v in per.values()):
+                problems.append("cleanup runs per actor directory %s, every actor is due %d" % (per, f["cleanups"] // ncast))
         left = leftover(os.path.basename(r["cwd"]))
         if left and not f["allow_left"]:
             problems.append("processes left running: %s" % left[:4])
